@@ -385,7 +385,10 @@ func newSandboxUR(world map[string]any, canaries bool, userRoot bool, sp int) (*
 			return nil, fmt.Errorf("no admin account")
 		}
 		acc.FileRoot = spell(treeRoot, sp)
-		if err := w.AM.Update(*acc, "admin"); err != nil {
+		tmpMu.RLock() // (an account write: never while a tmp = 1 request has $TMPDIR pointing nowhere)
+		err := w.AM.Update(*acc, "admin")
+		tmpMu.RUnlock()
+		if err != nil {
 			s.close()
 			return nil, err
 		}
